@@ -74,9 +74,13 @@ def compare(ctx, infr, infr2, inam2, e1, e2, mode, case, tag):
     special = (~both).any() or np.isin(infr, e1).any() or np.isin(infr2, e2).any()
     ctx.case(digest(infr, infr2, e1, e2, mode), bool(both.any() and special))
     keep = (infr.copy(), infr2.copy(), inam2.copy())
-    full = SP.holospectrum(infr, infr2, inam2, e1, e2, mode=mode, squash_time=False)
-    ssum = SP.holospectrum(infr, infr2, inam2, e1, e2, mode=mode, squash_time='sum')
-    smean = SP.holospectrum(infr, infr2, inam2, e1, e2, mode=mode, squash_time='mean')
+    form = ctx.evaluations % 5
+    a1, a2 = (e1, e2) if form > 1 else ((list(map(float, e1)), tuple(map(float, e2))) if form == 0 else (tuple(map(float, e1)), list(map(float, e2))))
+    if form <= 1:
+        ctx.count('edges_passed_as_list_or_tuple')
+    full = SP.holospectrum(infr, infr2, inam2, a1, a2, mode=mode, squash_time=False)
+    ssum = SP.holospectrum(infr, infr2, inam2, a1, a2, mode=mode, squash_time='sum')
+    smean = SP.holospectrum(infr, infr2, inam2, a1, a2, mode=mode, squash_time='mean')
     ctx.count('holospectra_compared')
     if full.shape != H.shape:
         ctx.violation('holo-shape', 'full holospectrum has shape %s, expected [time x AM bins x carrier bins] = %s' % (full.shape, H.shape), case)
